@@ -14,4 +14,10 @@ for prof in ("dbg", "rel"):
         print(prof, extract.facts_dir(prof))
     except SystemExit as e:
         print("setup: extraction for profile %s failed: %s" % (prof, e))
+try:
+    from mq import witness
+    r = witness.run_witness()
+    print("witness crate:", {k: (v.get("obligations"), v.get("discharged")) for k, v in r["groups"].items() if k != "compile_fail"}, r.get("wall_s"))
+except BaseException as e:
+    print("setup: witness pre-build failed:", e)
 PY
